@@ -74,3 +74,16 @@ Example C03_example :
   obs (undo_move zt (fst (do_move zt s (create_promotion 12 28 0))) (create_promotion 12 28 0)
                  (snd (do_move zt s (create_promotion 12 28 0)))) = obs s.
 Proof. vm_compute. repeat split; reflexivity. Qed.
+
+(* at every point of every legal game from every legal position, taking back any legal move restores every observable field *)
+From CV Require Import Chess.ValidStep Chess.GameInv Engine.KeyScratchInit Engine.GameRefine.
+From Coq Require Import ZArith.
+Theorem C03_undo_do_along_every_legal_game :
+  forall (zt : zobrist) (p0 : position) (ms : list move) (m : move),
+    valid_position p0 = true -> legal_line p0 ms = true -> (clock p0 + Z.of_nat (length ms) < 255)%Z -> legal (play p0 ms) m = true ->
+    let s := play_rep zt (rep_of_position zt p0) ms in
+    obs (undo_move zt (fst (do_move zt s (enc m))) (enc m) (snd (do_move zt s (enc m)))) = obs s.
+Proof.
+  intros zt p0 ms m Hv Hl Hn Hm. destruct (valid_hyps p0 Hv) as [Hg [Hc Hf]]. exact (game_undo zt p0 ms m Hg Hc Hf Hl Hn Hm).
+Qed.
+Print Assumptions C03_undo_do_along_every_legal_game.
